@@ -10,6 +10,18 @@ def pairs():
       "arena_free": P("arena_free", "_mi_arena_free", BM + OS + ["mi_arena_schedule_purge/c_arena_schedule_purge_rec", "mi_arenas_try_purge/c_arenas_try_purge_rec"]),
       "alloc_aligned": P("alloc_aligned", "_mi_arena_alloc_aligned", OS + ["mi_arena_try_alloc/c_arena_try_alloc_rec", "mi_arena_try_alloc_at_id/c_arena_try_alloc_at_id_rec",
                          "mi_arena_reserve/c_arena_reserve_rec", "_mi_os_alloc_aligned", "_mi_os_alloc_aligned_at_offset", "_mi_os_numa_node"]),
+      # one field; the four nested loops carry loop contracts (unbounded in the bit patterns)
+      "arena_try_purge": dict(name="arena_try_purge", entry="h_arena_try_purge", harness="harness/arena_try_purge.c", enforce="mi_arena_try_purge", label="P", objbits=10, unwind=14,
+                         loops="loops/arena_try_purge.json", need_ids=["loop_invariant_step"], functions=["mi_arena_try_purge"],
+                         replace=["_mi_bitmap_try_claim/c_bm_try_claim_seq", "_mi_bitmap_unclaim/c_bm_unclaim_seq", "_mi_bitmap_claim/c_bm_claim_seq", "mi_arena_purge_range/c_purge_range_use",
+                                  "mi_arena_purge_delay/c_arena_purge_delay_seq", "_mi_clock_now", "mi_option_get", "mi_option_is_enabled", "_mi_preloading"], timeout=900),
+      "purge_range": dict(name="purge_range", entry="h_purge_range", harness="harness/arena_try_purge.c", enforce="mi_arena_purge_range/c_purge_range_use", label="P", objbits=10, unwind=14,
+                         loops="loops/arena_purge_range.json", need_ids=["loop_invariant_step"], functions=["mi_arena_purge_range"], replace=["mi_arena_purge/c_arena_purge_seq"], timeout=900),
+      "arena_purge_seq": dict(name="arena_purge_seq", entry="h_arena_purge_seq", harness="harness/arena_try_purge.c", enforce="mi_arena_purge/c_arena_purge_seq", label="PC", objbits=10, unwind=5,
+                         functions=["mi_arena_purge", "_mi_bitmap_is_claimed_across", "_mi_bitmap_unclaim_across", "mi_bitmap_mask_across"], replace=["mi_option_get", "mi_option_is_enabled"], timeout=900),
+      "bm_try_claim_seq": dict(name="bm_try_claim_seq", entry="h_bm_try_claim", harness="harness/arena_try_purge.c", enforce="_mi_bitmap_try_claim/c_bm_try_claim_seq", label="PC", objbits=10, unwind=3, functions=["_mi_bitmap_try_claim"], replace=[], timeout=300),
+      "bm_unclaim_seq": dict(name="bm_unclaim_seq", entry="h_bm_unclaim", harness="harness/arena_try_purge.c", enforce="_mi_bitmap_unclaim/c_bm_unclaim_seq", label="P", objbits=10, unwind=3, functions=["_mi_bitmap_unclaim"], replace=[], timeout=300),
+      "bm_claim_seq": dict(name="bm_claim_seq", entry="h_bm_claim", harness="harness/arena_try_purge.c", enforce="_mi_bitmap_claim/c_bm_claim_seq", label="P", objbits=10, unwind=3, functions=["_mi_bitmap_claim"], replace=[], timeout=300),
       "try_alloc_at_id": P("try_alloc_at_id", "mi_arena_try_alloc_at_id", OS + ["mi_arena_try_alloc_at/c_try_alloc_at_rec"]),
       "manage_os_memory": dict(name="manage_os_memory", entry="h_manage_plain", harness="harness/arena_manage.c", enforce=None, mode="plain", label="PC", unwind=12, objbits=12,
                          functions=["mi_manage_os_memory_ex", "mi_manage_os_memory_ex2", "mi_arena_add", "_mi_arena_meta_zalloc", "mi_arena_static_zalloc", "_mi_bitmap_claim"], timeout=600,
